@@ -17,6 +17,8 @@ package server
 
 import (
 	"context"
+	"os"
+	"sync"
 	"time"
 
 	"go.lsp.dev/protocol"
@@ -30,49 +32,109 @@ func init() {
 	zzverif.Register("VerifC13TwoDocs", VerifC13TwoDocs)
 	zzverif.Register("VerifC13TwoDocsLong", VerifC13TwoDocsLong)
 	zzverif.Register("VerifC13Workspace", VerifC13Workspace)
+	zzverif.Register("VerifC13Interleave", VerifC13Interleave)
+	zzverif.Register("VerifC13InterleaveLong", VerifC13InterleaveLong)
 }
 
-func VerifC13Burst()       { c13Burst(2, 3, 1, false, 3) }
-func VerifC13BurstLong()   { c13Burst(2, 4, 1, false, 3) }
-func VerifC13TwoDocs()     { c13Burst(2, 2, 2, false, 1) }
-func VerifC13TwoDocsLong() { c13Burst(2, 2, 2, false, 2) }
-func VerifC13Workspace()   { c13Burst(2, 3, 1, true, 3) }
+func VerifC13Burst()       { c13Burst(2, 3, 1, false, 3, false) }
+func VerifC13BurstLong()   { c13Burst(2, 4, 1, false, 3, false) }
+func VerifC13TwoDocs()     { c13Burst(2, 2, 2, false, 1, false) }
+func VerifC13TwoDocsLong() { c13Burst(2, 2, 2, false, 2, false) }
+func VerifC13Workspace()   { c13Burst(2, 3, 1, true, 3, false) }
+
+// notifications interleaved with analyses and deliveries
+func VerifC13Interleave()     { c13Burst(2, 3, 1, false, 2, true) }
+func VerifC13InterleaveLong() { c13Burst(2, 4, 1, false, 2, true) }
 
 type c13Task struct {
 	uri     protocol.DocumentURI
 	content string
 }
 
+// c13Client: PublishDiagnostics calls made while the server holds its publish lock reach
+// the client in call order (the call is synchronous with the wire); a call made with the
+// lock released can be overtaken by later ones, so it is DEFERRED: it stays pending until
+// the schedule delivers it.
+type c13Client struct {
+	zzClient
+	s        *Server
+	deferred []*protocol.PublishDiagnosticsParams
+}
+
+func (c *c13Client) PublishDiagnostics(_ context.Context, p *protocol.PublishDiagnosticsParams) error {
+	if c.s.publishMu.TryLock() {
+		// lock not held: nothing orders this call against other publishers
+		c.s.publishMu.Unlock()
+		c.deferred = append(c.deferred, p)
+		return nil
+	}
+	c.published = append(c.published, p)
+	return nil
+}
+
+func (c *c13Client) deliver(j int) {
+	c.published = append(c.published, c.deferred[j])
+	c.deferred = append(append([]*protocol.PublishDiagnosticsParams{}, c.deferred[:j]...), c.deferred[j+1:]...)
+}
+
 type c13World struct {
 	ctx     context.Context
 	s       *Server
-	cl      *zzClient
-	pending []c13Task
+	cl      *c13Client
+	pending []c13Task // native twin of the engine's pending background tasks
+}
+
+func c13NewWorld() *c13World {
+	s := NewServer()
+	cl := &c13Client{s: s}
+	s.SetClient(cl)
+	return &c13World{ctx: context.Background(), s: s, cl: cl}
 }
 
 // notify sends one notification; the background task it spawns becomes pending.
+// Natively the spawned goroutine is muted (client detached) and the task is emulated by a
+// direct call in run(): one analysis of (uri, content) per notification, as the server
+// spawns them today. If the server's spawning changes, the emulation no longer mirrors the
+// engine and the driver falls back to the real-goroutine replay (c13Real).
 func (w *c13World) notify(uri protocol.DocumentURI, f func()) {
 	if zzverif.Engine() {
 		f()
-	} else {
-		w.s.client = nil
-		f()
-		time.Sleep(5 * time.Millisecond)
-		w.s.client = w.cl
+		return
 	}
+	w.s.client = nil
+	f()
+	time.Sleep(5 * time.Millisecond)
+	w.s.client = w.cl
 	if c, ok := w.s.GetDocument(uri); ok {
 		w.pending = append(w.pending, c13Task{uri, c})
 	}
 }
 
+func (w *c13World) npending() int {
+	if zzverif.Engine() {
+		return zzverif.PendingTasks()
+	}
+	return len(w.pending)
+}
+
 // run lets the i-th pending background task run to completion.
 func (w *c13World) run(i int) {
-	t := w.pending[i]
-	w.pending = append(append([]c13Task{}, w.pending[:i]...), w.pending[i+1:]...)
 	if zzverif.Engine() {
 		zzverif.RunTask(i)
-	} else {
-		w.s.publishDiagnostics(w.ctx, t.uri, t.content)
+		return
+	}
+	t := w.pending[i]
+	w.pending = append(append([]c13Task{}, w.pending[:i]...), w.pending[i+1:]...)
+	w.s.publishDiagnostics(w.ctx, t.uri, t.content)
+}
+
+// settle runs everything that is pending, in order (used where the schedule is not the subject).
+func (w *c13World) settle() {
+	for w.npending() > 0 {
+		w.run(0)
+	}
+	for len(w.cl.deferred) > 0 {
+		w.cl.deliver(0)
 	}
 }
 
@@ -119,95 +181,118 @@ func c13Same(a, b []protocol.Diagnostic) bool {
 
 // c13Fresh: the diagnostics a fresh server publishes for content once settled.
 func c13Fresh(root string, ws bool, uri protocol.DocumentURI, content string) []protocol.Diagnostic {
-	ctx := context.Background()
-	s := NewServer()
-	cl := &zzClient{}
-	s.SetClient(cl)
-	w := &c13World{ctx: ctx, s: s, cl: cl}
-	if ws {
-		_, _ = s.Initialize(ctx, &protocol.InitializeParams{RootURI: protocol.DocumentURI("file://" + root)})
-		_ = s.Initialized(ctx, &protocol.InitializedParams{})
-		if zzverif.Engine() {
-			for zzverif.PendingTasks() > 0 {
-				zzverif.RunTask(0)
-			}
-		}
-	} else {
-		_, _ = s.Initialize(ctx, &protocol.InitializeParams{})
-	}
+	w := c13NewWorld()
+	c13Init(w, root, ws)
 	w.notify(uri, func() {
-		_ = s.DidOpen(ctx, &protocol.DidOpenTextDocumentParams{TextDocument: protocol.TextDocumentItem{URI: uri, Text: content}})
+		_ = w.s.DidOpen(w.ctx, &protocol.DidOpenTextDocumentParams{TextDocument: protocol.TextDocumentItem{URI: uri, Text: content}})
 	})
-	w.run(0)
-	p := cl.last(uri)
+	w.settle()
+	p := w.cl.last(uri)
 	if p == nil {
 		return nil
 	}
 	return p.Diagnostics
 }
 
-// c13Burst: ndocs documents, each opened and then changed up to maxChanges-1.. times
-// (burst length = minChanges..maxChanges notifications per document including the open),
-// then all pending background tasks run in an order chosen by case split.
-func c13Burst(minN, maxN, ndocs int, ws bool, shapes int) {
-	ctx := context.Background()
-	root := zzverif.Root()
-	s := NewServer()
-	cl := &zzClient{}
-	s.SetClient(cl)
-	w := &c13World{ctx: ctx, s: s, cl: cl}
+func c13Init(w *c13World, root string, ws bool) {
 	if ws {
-		zzverif.WriteFile(root+"/main.journal", "account a:b\n")
-		_, _ = s.Initialize(ctx, &protocol.InitializeParams{RootURI: protocol.DocumentURI("file://" + root)})
-		_ = s.Initialized(ctx, &protocol.InitializedParams{})
+		_, _ = w.s.Initialize(w.ctx, &protocol.InitializeParams{RootURI: protocol.DocumentURI("file://" + root)})
+		_ = w.s.Initialized(w.ctx, &protocol.InitializedParams{})
 		if zzverif.Engine() {
 			for zzverif.PendingTasks() > 0 {
 				zzverif.RunTask(0)
 			}
 		}
 	} else {
-		_, _ = s.Initialize(ctx, &protocol.InitializeParams{})
+		_, _ = w.s.Initialize(w.ctx, &protocol.InitializeParams{})
 	}
+}
+
+type c13Note struct {
+	doc  int
+	text string
+	open bool
+}
+
+func (w *c13World) send(uris []protocol.DocumentURI, n c13Note) {
+	uri, text := uris[n.doc], n.text
+	if n.open {
+		w.notify(uri, func() {
+			_ = w.s.DidOpen(w.ctx, &protocol.DidOpenTextDocumentParams{TextDocument: protocol.TextDocumentItem{URI: uri, Text: text}})
+		})
+		return
+	}
+	w.notify(uri, func() {
+		_ = w.s.DidChange(w.ctx, &protocol.DidChangeTextDocumentParams{
+			TextDocument:   protocol.VersionedTextDocumentIdentifier{TextDocumentIdentifier: protocol.TextDocumentIdentifier{URI: uri}},
+			ContentChanges: []protocol.TextDocumentContentChangeEvent{{Text: text}},
+		})
+	})
+}
+
+// c13Burst: ndocs documents, each opened and then changed (minN..maxN notifications per
+// document including the open, documents interleaved round-robin). The schedule is a case
+// split at every step among: send the next notification (when interleave is on; otherwise
+// all notifications are sent first), run one of the pending background analyses to its
+// end, deliver one of the deferred publications. It ends when nothing is left.
+func c13Burst(minN, maxN, ndocs int, ws bool, shapes int, interleave bool) {
+	root := zzverif.Root()
+	if ws {
+		zzverif.WriteFile(root+"/main.journal", "account a:b\n")
+	}
+	w := c13NewWorld()
+	c13Init(w, root, ws)
 	uris := make([]protocol.DocumentURI, ndocs)
 	latest := make([]string, ndocs)
 	n := minN + zzverif.Choice("burst", maxN-minN+1)
 	for d := 0; d < ndocs; d++ {
 		uris[d] = protocol.DocumentURI("file://" + root + "/doc" + zzverif.Itoa(d) + ".journal")
 	}
-	// notifications: document d's i-th version; documents interleaved round-robin
+	var notes []c13Note
 	for i := 0; i < n; i++ {
 		for d := 0; d < ndocs; d++ {
-			uri := uris[d]
-			text := c13Text("v"+zzverif.Itoa(d)+"."+zzverif.Itoa(i), shapes)
-			latest[d] = text
-			if i == 0 {
-				w.notify(uri, func() {
-					_ = s.DidOpen(ctx, &protocol.DidOpenTextDocumentParams{TextDocument: protocol.TextDocumentItem{URI: uri, Text: text}})
-				})
-			} else {
-				w.notify(uri, func() {
-					_ = s.DidChange(ctx, &protocol.DidChangeTextDocumentParams{
-						TextDocument:   protocol.VersionedTextDocumentIdentifier{TextDocumentIdentifier: protocol.TextDocumentIdentifier{URI: uri}},
-						ContentChanges: []protocol.TextDocumentContentChangeEvent{{Text: text}},
-					})
-				})
-			}
+			notes = append(notes, c13Note{d, c13Text("v"+zzverif.Itoa(d)+"."+zzverif.Itoa(i), shapes), i == 0})
 		}
 	}
-	zzverif.Assert(len(w.pending) == n*ndocs, "C13: one background analysis per notification")
-	// schedule: every order in which the background analyses run to their publish point
-	step := 0
-	for len(w.pending) > 0 {
-		k := 0
-		if len(w.pending) > 1 {
-			k = zzverif.Choice("order."+zzverif.Itoa(step), len(w.pending))
+	if c13RealMode() {
+		c13Real(w, root, ws, uris, notes)
+		return
+	}
+	next := 0
+	if !interleave {
+		for ; next < len(notes); next++ {
+			w.send(uris, notes[next])
+			latest[notes[next].doc] = notes[next].text
 		}
-		w.run(k)
-		step++
+	}
+	for step := 0; ; step++ {
+		nn := 0
+		if next < len(notes) {
+			nn = 1
+		}
+		nt, nd := w.npending(), len(w.cl.deferred)
+		total := nn + nt + nd
+		if total == 0 {
+			break
+		}
+		k := 0
+		if total > 1 {
+			k = zzverif.Choice("sched."+zzverif.Itoa(step), total)
+		}
+		switch {
+		case k < nn:
+			w.send(uris, notes[next])
+			latest[notes[next].doc] = notes[next].text
+			next++
+		case k < nn+nt:
+			w.run(k - nn)
+		default:
+			w.cl.deliver(k - nn - nt)
+		}
 	}
 	for d := 0; d < ndocs; d++ {
-		got := cl.last(uris[d])
-		zzverif.Assert(got != nil, "C13: something was published for the document")
+		got := w.cl.last(uris[d])
+		zzverif.Assert(got != nil, "C13: nothing was published for an open document")
 		if got == nil {
 			return
 		}
@@ -218,6 +303,83 @@ func c13Burst(minN, maxN, ndocs int, ws bool, shapes int) {
 		zzverif.Assert(c13Same(got.Diagnostics, want), "C13: last published diagnostics are those of the latest content")
 	}
 	zzverif.Reach("C13.converge")
+}
+
+func c13RealMode() bool { return !zzverif.Engine() && os.Getenv("VERIF_ALT") != "" }
+
+// c13Real: second native confirmation, with the server's real goroutines. The burst is sent
+// while the settings lock is held (every analysis blocks at its first getSettings), then the
+// lock is released and the analyses run under the Go scheduler; once the client has been
+// quiet for a while the last publication per document is compared with the fresh server's.
+// The schedule is not controlled here; the driver repeats this replay several times.
+type c13RealClient struct {
+	protocol.Client
+	mu        sync.Mutex
+	published []*protocol.PublishDiagnosticsParams
+}
+
+func (c *c13RealClient) PublishDiagnostics(_ context.Context, p *protocol.PublishDiagnosticsParams) error {
+	time.Sleep(time.Duration(len(p.Diagnostics)%3) * time.Millisecond)
+	c.mu.Lock()
+	c.published = append(c.published, p)
+	c.mu.Unlock()
+	return nil
+}
+
+func (c *c13RealClient) LogMessage(context.Context, *protocol.LogMessageParams) error { return nil }
+func (c *c13RealClient) Configuration(context.Context, *protocol.ConfigurationParams) ([]any, error) {
+	return nil, nil
+}
+
+func (c *c13RealClient) count() int {
+	c.mu.Lock()
+	defer c.mu.Unlock()
+	return len(c.published)
+}
+
+func c13Real(w *c13World, root string, ws bool, uris []protocol.DocumentURI, notes []c13Note) {
+	rc := &c13RealClient{}
+	w.s.SetClient(rc)
+	latest := make([]string, len(uris))
+	w.s.settingsMu.Lock()
+	for _, n := range notes {
+		uri, text := uris[n.doc], n.text
+		latest[n.doc] = text
+		if n.open {
+			_ = w.s.DidOpen(w.ctx, &protocol.DidOpenTextDocumentParams{TextDocument: protocol.TextDocumentItem{URI: uri, Text: text}})
+		} else {
+			_ = w.s.DidChange(w.ctx, &protocol.DidChangeTextDocumentParams{
+				TextDocument:   protocol.VersionedTextDocumentIdentifier{TextDocumentIdentifier: protocol.TextDocumentIdentifier{URI: uri}},
+				ContentChanges: []protocol.TextDocumentContentChangeEvent{{Text: text}},
+			})
+		}
+		time.Sleep(2 * time.Millisecond)
+	}
+	w.s.settingsMu.Unlock()
+	for quiet, last := 0, -1; quiet < 15; {
+		time.Sleep(10 * time.Millisecond)
+		if c := rc.count(); c == last {
+			quiet++
+		} else {
+			quiet, last = 0, c
+		}
+	}
+	rc.mu.Lock()
+	defer rc.mu.Unlock()
+	for d := range uris {
+		var got *protocol.PublishDiagnosticsParams
+		for _, p := range rc.published {
+			if p.URI == uris[d] {
+				got = p
+			}
+		}
+		zzverif.Assert(got != nil, "C13: nothing was published for an open document")
+		if got == nil {
+			return
+		}
+		want := c13Fresh(root, ws, uris[d], latest[d])
+		zzverif.Assert(c13Same(got.Diagnostics, want), "C13: last published diagnostics are those of the latest content")
+	}
 }
 
 func c13Codes(ds []protocol.Diagnostic) string {
